@@ -388,6 +388,10 @@ class Evaluator(object):
                 ast.Is: 'eq', ast.IsNot: 'ne', ast.In: 'in', ast.NotIn: 'notin'}.get(type(op))
         if name is None:
             return self.unknown('comparison %s' % type(op).__name__, node)
+        if isinstance(a, CallV):
+            a = a.rat
+        if isinstance(b, CallV):
+            b = b.rat
         if isinstance(a, IteV):
             return self.ite(a.cond, self.compare(op, a.a, b, node), self.compare(op, a.b, b, node))
         if isinstance(b, IteV):
@@ -792,7 +796,7 @@ class Evaluator(object):
         if isinstance(v, Mat):
             return Mat(_mat_map(v.data, lambda x: self.neg(x, node)), v.shape)
         if isinstance(v, Obj) and v.cls is not None and '__neg__' in v.cls.methods:
-            return self.call_function(v.cls.methods['__neg__'], {v.cls.methods['__neg__'].params[0].name: v}, node)
+            return self.invoke(v.cls.methods['__neg__'], [v], {}, node)
         if isinstance(v, CallV):
             return CallV(-v.rat, v.name)
         if isinstance(v, IteV):
@@ -1205,6 +1209,14 @@ class Evaluator(object):
             if short == 'type' and len(a) == 1:
                 if isinstance(a[0], Obj) and a[0].cls is not None:
                     return Ref(a[0].cls)
+                if isinstance(a[0], NoneV):
+                    return Ref(Ext('builtins.NoneType'))
+                if isinstance(a[0], Str):
+                    return Ref(Ext('builtins.str'))
+                if isinstance(a[0], Bool):
+                    return Ref(Ext('builtins.bool'))
+                if isinstance(a[0], Mat):
+                    return Ref(Ext('numpy.ndarray'))
                 return alg.opaque('type', (argkey(a[0]),))
             if short == 'isinstance' and len(a) == 2:
                 if isinstance(a[0], Obj) and isinstance(a[1], Ref) and isinstance(a[1].target, Class):
@@ -1610,4 +1622,5 @@ def _sum_hp2dec(ev, func, args, node):
 
 DEFAULT_SUMMARIES = {
     'angular_typecheck': _sum_identity('angle'),
+    'hp2dec': _sum_hp2dec,
 }
